@@ -142,6 +142,9 @@ def gen_col(rng, name, st, n, miss_p, for_target=False):
         col["cells"] = cells
         if fmt == "datetime64":
             col["dtype"] = "datetime64"
+            # a time format may still be configured for a column that already holds datetimes
+            # (e.g. one col_to_time_format string for all timestamp columns); it must not matter
+            col["cfg_fmt"] = rng.pick([None, "%Y-%m-%d %H:%M:%S", "%Y-%m-%d", "%Y/%m/%d", "%d/%m/%Y %H:%M:%S"])
     elif st == "embedding":
         w = rng.randint(1, 5)
         col["width"] = w
@@ -316,7 +319,7 @@ def build_dataset(desc, df=None, stubs=None, **kw):
     # the order of col_to_stype follows the frame's column order
     col_to_stype = {name: col_to_stype[name] for name in df.columns if name in col_to_stype}
     sep = {c["name"]: c["sep"] for c in desc["cols"] if c["stype"] == "multicategorical"}
-    fmt = {c["name"]: (None if c["fmt"] in (None, "datetime64") else c["fmt"]) for c in desc["cols"]
+    fmt = {c["name"]: (c.get("cfg_fmt") if c["fmt"] == "datetime64" else c["fmt"]) for c in desc["cols"]
            if c["stype"] == "timestamp"}
     stubs = stubs if stubs is not None else {}
     te, tt, ie = {}, {}, {}
